@@ -228,7 +228,13 @@ func (fx *FnExec) staticCall(st *State, fn *ssa.Function, args, bindings []*Term
 		}
 		return res
 	}
-	if con := fx.e.cons[fn]; con != nil {
+	// `opaque !F` in the contract of the unit under verification: calls of F are opaque even though F has a
+	// contract (its preconditions are not this unit's business; its effects are unknown but for `keeps`)
+	forcedOpaque := false
+	if rc := fx.root().con; rc != nil && rc.Opaque["!"+fn.Name()] {
+		forcedOpaque = true
+	}
+	if con := fx.e.cons[fn]; con != nil && !forcedOpaque {
 		if con.Inline {
 			return fx.inline(st, fn, con, args, bindings, p)
 		}
@@ -248,7 +254,7 @@ func (fx *FnExec) staticCall(st *State, fn *ssa.Function, args, bindings []*Term
 	}
 	if fx.inRepo(fn) || fn.Synthetic != "" {
 		rc := fx.root().con
-		if !hasLoop(fn) && fx.depth < 6 && len(fn.Blocks) <= 40 && !(rc != nil && rc.Opaque[fn.Name()]) {
+		if !forcedOpaque && !hasLoop(fn) && fx.depth < 6 && len(fn.Blocks) <= 40 && !(rc != nil && rc.Opaque[fn.Name()]) {
 			return fx.inline(st, fn, nil, args, bindings, p)
 		}
 		fx.opaqueTargets = []*ssa.Function{fn}
@@ -1292,6 +1298,9 @@ func (fx *FnExec) callMods(ci ssa.CallInstruction, ms *modSet) {
 
 // wouldBeOpaque mirrors staticCall's treatment of callees without a contract.
 func (fx *FnExec) wouldBeOpaque(fn *ssa.Function) bool {
+	if rc := fx.root().con; rc != nil && rc.Opaque["!"+fn.Name()] {
+		return true
+	}
 	if con := fx.e.cons[fn]; con != nil {
 		return false
 	}
